@@ -7,7 +7,10 @@ Only theorems live here.  `Moyo/Generated/C08Sites.lean` is regenerated from /re
 `expect`, `assert*!`, `unreachable!`, `panic!`, indexing, unsigned subtraction, integer division, panicking
 slice / nalgebra calls).  `Moyo/Model/C08Discharge.lean` is the hand-written table of reasons.  The theorems say:
 every site is matched by a record (so a new `unwrap()` or a changed guard breaks the build of this file), the
-scan is not empty, and the only sites admitted to be able to fire are those of the listed known findings.
+scan is not empty, and the only sites conceded to be able to fire are those of the listed known findings.
+(The fingerprints of the fn bodies the records were reviewed against are pinned in the table and compared by
+`tools/c08_undischarged.lean` — `REVIEW file|fn` lines, reported in the evidence — but deliberately NOT a theorem:
+an edit that leaves the panic sites of a fn alone must not break the obligations.)
 
 What this does NOT prove: that the reasons are true.  They are reviewed text (each names its guard, caller,
 table or invariant); the ones named `Moyo.C15.…` are Lean theorems about the model, the exploration of
@@ -23,8 +26,8 @@ theorem all_sites_discharged : undischarged sitesByFile table bulkRules = [] := 
 second textually identical `unwrap()` in a fn where one is discharged (multiplicity is part of the match). -/
 example :
     undischarged
-      [⟨"x.rs", [⟨"f", [⟨.unwrap, "foo . unwrap ( )", "none", "", 1, 1⟩]⟩]⟩,
-       ⟨"base/cell.rs", [⟨"orbits_from_permutations",
+      [⟨"x.rs", [⟨"f", 7, [⟨.unwrap, "foo . unwrap ( )", "none", "", 1, 1⟩]⟩]⟩,
+       ⟨"base/cell.rs", [⟨"orbits_from_permutations", 7,
           [⟨.unwrap, "identifier_mapping . get ( & uf . find ( j ) ) . unwrap ( )", "none", "", 68, 1⟩,
            ⟨.unwrap, "identifier_mapping . get ( & uf . find ( i ) ) . unwrap ( )", "none", "", 68, 2⟩,
            ⟨.unwrap, "identifier_mapping . get ( & uf . find ( i ) ) . unwrap ( )", "none", "", 68, 1⟩]⟩]⟩]
@@ -35,9 +38,6 @@ example :
        ("base/cell.rs", "orbits_from_permutations",
           ⟨.unwrap, "identifier_mapping . get ( & uf . find ( i ) ) . unwrap ( )", "none", "", 68, 2⟩)] := by
   decide +kernel
-
-/-- The Boolean form used by the checker agrees on the real data. -/
-theorem all_sites_discharged_bool : allDischarged sitesByFile table bulkRules = true := by decide +kernel
 
 /-- **The scan saw the crate**: at least 40 source files, at least 300 sites, and sites of every major kind. -/
 theorem inventory_scan_nonempty :
@@ -50,19 +50,22 @@ theorem inventory_scan_nonempty :
 
 /-- Non-vacuity: the counting functions count (a two-site inventory has one `unwrap` and no `panic`). -/
 example :
-    countKind [⟨"a.rs", [⟨"f", [⟨.unwrap, "x . unwrap ( )", "none", "", 1, 1⟩, ⟨.index, "v [ i ]", "none", "", 2, 1⟩]⟩]⟩] .unwrap = 1 ∧
-    countKind [⟨"a.rs", [⟨"f", [⟨.unwrap, "x . unwrap ( )", "none", "", 1, 1⟩]⟩]⟩] .panic = 0 := by decide
+    countKind [⟨"a.rs", [⟨"f", 7, [⟨.unwrap, "x . unwrap ( )", "none", "", 1, 1⟩, ⟨.index, "v [ i ]", "none", "", 2, 1⟩]⟩]⟩] .unwrap = 1 ∧
+    countKind [⟨"a.rs", [⟨"f", 7, [⟨.unwrap, "x . unwrap ( )", "none", "", 1, 1⟩]⟩]⟩] .panic = 0 := by decide
 
-/-- **Only the listed findings are admitted to fire**: every known-finding key that discharges an existing site is
-one of `allowedFindingKeys` (seven keys: six malformed-Hall-symbol parser panics and the magnetic closure map). -/
+/-- **Only the listed findings are conceded to fire**: every `knownFinding` key that occurs anywhere in the table
+(hence every key that discharges a site) is one of `allowedFindingKeys` — seven keys: six malformed-Hall-symbol
+parser panics and the magnetic closure map.  Every other record claims that its site cannot fire. -/
 theorem known_findings_bounded :
-    ((knownFindingKeys sitesByFile table bulkRules).all fun k => allowedFindingKeys.contains k.1) = true := by
-  decide +kernel
+    ((tableFindingKeys table bulkRules).all fun k => allowedFindingKeys.contains k) = true := by decide +kernel
 
-/-- Non-vacuity: there are such sites on the current tree (so the statement above is about something), and a
-record with another key would be rejected by it. -/
-example : (knownFindingKeys sitesByFile table bulkRules).length ≠ 0 ∧
-    allowedFindingKeys.contains "panic:made-up" = false := by decide +kernel
+/-- Non-vacuity: a key outside the list is rejected, the table does contain finding records, and such a record
+really is what discharges its site (`tokens[0]` in `parse`, the empty-string panic). -/
+example : allowedFindingKeys.contains "panic:made-up" = false ∧ 0 < (tableFindingKeys table bulkRules).length ∧
+    knownFindingKeys [⟨"data/hall_symbol.rs", [⟨"parse", 7, [⟨.index, "tokens [ 0 ]", "literal-index", "max=0", 261, 1⟩]⟩]⟩]
+        table bulkRules
+      = [("panic:hall_symbol.rs:parse:index-oob", "data/hall_symbol.rs", "parse", "tokens [ 0 ]")] := by
+  decide +kernel
 
 /-- **Global bulk rules are class rules only** (kind + lexical class computed by the translator), never text. -/
 theorem bulk_rules_are_class_rules : (bulkRules.all fun r => r.m.isCls) = true := by decide
